@@ -73,6 +73,9 @@ func setupTLSConfig(sslOpts *SslOptions) (*tls.Config, error) {
 	if sslOpts.CaPath != "" {
 		if tlsConfig.RootCAs == nil {
 			tlsConfig.RootCAs = x509.NewCertPool()
+		} else {
+			// Config.Clone shares the caller's pool: copy it before adding to it.
+			tlsConfig.RootCAs = tlsConfig.RootCAs.Clone()
 		}
 
 		pem, err := ioutil.ReadFile(sslOpts.CaPath)
